@@ -20,7 +20,7 @@ type Spec struct {
 	R   int  // action return: 0 node string, 1 nil, 2 []byte copy of text, 3 first label value, 4 id
 	E   int  // error: 0 none, 1 own always, 2 own when hash%3==0, 3 sentinel always, 4 sentinel when hash%2==0
 	P   int  // panic: 0 none, 1 error when hash%5==0, 2 string when hash%5==0, 3 int when hash%7==0, 4 error always
-	B   int  // predicate bool: 0 true, 1 false, 2 hash%2==0, 3 state n even
+	B   int  // predicate bool: 0 true, 1 false, 2 coin(labels, event index), 3 state n even, 4 coin(labels)
 	S   int  // state ops bitmask (state blocks): 1 inc n, 2 append id to s, 4 box push id, 8 set k<id%3>=off, 16 delete k<(id+1)%3>
 	Scr bool // scribble on the state store inside an action / predicate block (must be discarded)
 	G   bool // append to the globalStore log
@@ -133,19 +133,41 @@ type PanicErr struct{ ID int }
 
 func (e *PanicErr) Error() string { return "PE" + strconv.Itoa(e.ID) }
 
-// PredBool decides a predicate block.
-func (sp Spec) PredBool(id, off int, n int) bool {
+// PredBool decides a predicate block. key is LabelCoin(labels): predicate and state blocks never
+// base a decision on c.pos / c.text (pigeon leaves those stale there, see known finding F02), idx
+// is the number of events recorded before this one.
+func (sp Spec) PredBool(id, key, idx int, n int) bool {
 	switch sp.B {
 	case 0:
 		return true
 	case 1:
 		return false
 	case 2:
-		return Hash(id+3, off)%2 == 0
+		return Hash(id+3, key+idx*31)%2 == 0
 	case 3:
 		return n%2 == 0
+	case 4:
+		return Hash(id+3, key)%2 == 0
 	}
 	return true
+}
+
+// LabelCoin folds the canonical label string into a small int.
+func LabelCoin(labels string) int {
+	h := uint32(2166136261)
+	for i := 0; i < len(labels); i++ {
+		h ^= uint32(labels[i])
+		h *= 16777619
+	}
+	return int(h % 100003)
+}
+
+// Idx is the index the next event will get.
+func (tr *Trace) Idx() int {
+	if tr == nil {
+		return 0
+	}
+	return len(tr.Events) + tr.Dropped
 }
 
 // Canon renders a parse value canonically.
@@ -320,15 +342,16 @@ func ApplyStateOps(st map[string]any, id, off, ops int) {
 	}
 }
 
-func (sp Spec) common(kind byte, gs, st map[string]any, id int, text []byte, line, col, off int, ls []L) (labels string, tr *Trace) {
+func (sp Spec) common(kind byte, gs, st map[string]any, id int, text []byte, line, col, off int, ls []L) (labels string, tr *Trace, idx int) {
 	tr = traceOf(gs)
+	idx = tr.Idx()
 	labels = CanonLabels(ls)
 	tr.add(FormatEvent(kind, id, line, col, off, text, labels, CanonState(st), glogOf(gs)))
 	if sp.G && gs != nil {
 		gs["glog"] = glogOf(gs) + string(kind) + strconv.Itoa(id) + ","
 	}
 	tr.stress(id, off)
-	return labels, tr
+	return labels, tr, idx
 }
 
 func (sp Spec) fault(id, off int) error {
@@ -351,7 +374,7 @@ func (sp Spec) fault(id, off int) error {
 
 // Act is the body of every generated action block.
 func Act(gs, st map[string]any, id int, sp Spec, text []byte, line, col, off int, ls ...L) (any, error) {
-	labels, _ := sp.common('A', gs, st, id, text, line, col, off, ls)
+	labels, _, _ := sp.common('A', gs, st, id, text, line, col, off, ls)
 	if sp.Scr {
 		scribble(st)
 	}
@@ -376,7 +399,8 @@ func Act(gs, st map[string]any, id int, sp Spec, text []byte, line, col, off int
 
 // Pred is the body of every generated &{} / !{} block.
 func Pred(gs, st map[string]any, id int, sp Spec, text []byte, line, col, off int, ls ...L) (bool, error) {
-	sp.common('P', gs, st, id, text, line, col, off, ls)
+	labels, _, idx := sp.common('P', gs, st, id, text, line, col, off, ls)
+	key := LabelCoin(labels)
 	n := 0
 	if st != nil {
 		n = StateN(st)
@@ -384,15 +408,16 @@ func Pred(gs, st map[string]any, id int, sp Spec, text []byte, line, col, off in
 	if sp.Scr {
 		scribble(st)
 	}
-	err := sp.fault(id, off)
-	return sp.PredBool(id, off, n), err
+	err := sp.fault(id, key)
+	return sp.PredBool(id, key, idx, n), err
 }
 
 // State is the body of every generated #{} block.
 func State(gs, st map[string]any, id int, sp Spec, text []byte, line, col, off int, ls ...L) error {
-	sp.common('S', gs, st, id, text, line, col, off, ls)
+	labels, _, _ := sp.common('S', gs, st, id, text, line, col, off, ls)
+	key := LabelCoin(labels)
 	if st != nil {
-		ApplyStateOps(st, id, off, sp.S)
+		ApplyStateOps(st, id, key, sp.S)
 	}
-	return sp.fault(id, off)
+	return sp.fault(id, key)
 }
